@@ -489,8 +489,8 @@ Not used by `canon` (LDK's builder does not trim); stated here because the prope
 "trimmed values": contents with an HTLC below these limits are refused by every non-permissive
 validator, so the canonical transaction of a *validated* content never contains such an output. -/
 
-def MIN_DUST_LIMIT_SATOSHIS : Nat := 354
-def MIN_CHAN_DUST_LIMIT_SATOSHIS : Nat := 330
+def MIN_DUST_LIMIT_SATOSHIS : Nat := 330
+def MIN_CHAN_DUST_LIMIT_SATOSHIS : Nat := 354
 
 def dustLimitOffered (s : Setup) (feerate : Nat) : Nat :=
   if s.ctype.isZeroFee then MIN_CHAN_DUST_LIMIT_SATOSHIS
